@@ -243,6 +243,67 @@ def mon_c09(case, out):
                     first_best = [s for s in servers if fails[s] == best][0]
                     if dst != first_best and fails[dst] == best:
                         bad.append(("attempt-not-first-best", "sent to %s, first best is %s" % (dst, first_best)))
+    return bad + mon_c09_time(case, out)
+
+
+def mon_c09_time(case, out):
+    """time-dependent parts of the failover policy, evaluated on the implementation's trace:
+    (a) a failed server is probed only after `retrydelay` has passed since its latest failure;
+    (b) every query whose deadline has passed when timeouts are processed counts as one failure of the server it was
+        last sent to (one server-state notification each)"""
+    bad = []
+    now, delay = 0, 5000
+    fdsrv, idsrv, last_fail = {}, {}, {}
+    prev_dl = []
+    for op, evs, line in _iter(case, out):
+        t = op.split()
+        kv = _kv(t)
+        if t[0] == "chan":
+            now, fdsrv, idsrv, last_fail, prev_dl = 0, {}, {}, {}, []
+            delay = int(kv.get("retrydelay", 5000))
+            continue
+        if t[0] == "adv":
+            now += int(kv.get("ms", t[1] if len(t) > 1 and t[1].lstrip("-").isdigit() else 0))
+        drawn = [a[1] for n, a in evs if n == "rnd" and len(a) > 1 and a[0] == "2"]
+        own_id = drawn[0] if drawn else None
+        quiet = not any(n in ("cb", "react") for n, _ in evs)
+        downs = {}
+        idsrv0 = dict(idsrv)     # where each query had last been sent before this op
+        for name, args in evs:
+            if name in ("conn", "conn!"):
+                fdsrv[int(args[0])] = args[1].split("#")[0]
+            elif name == "srv":
+                addr = args[0].rsplit(":", 1)[0]
+                if args[1] == "down":
+                    downs[addr] = downs.get(addr, 0) + 1
+                    last_fail[addr] = now
+                else:
+                    last_fail.pop(addr, None)
+            elif name == "tx":
+                a = _kv(args)
+                dst = fdsrv.get(int(a.get("fd", -1)))
+                qid = a.get("id")
+                if t[0] == "req" and quiet and qid in drawn and qid != own_id and dst in last_fail \
+                        and now - last_fail[dst] < delay:
+                    bad.append(("probe-before-retry-delay", "server %s failed %d ms ago, retry delay is %d ms, and is probed already"
+                                % (dst, now - last_fail[dst], delay)))
+                if qid is not None and dst is not None:
+                    idsrv[qid] = dst
+        if t[0] == "tick":
+            # (a query buffered on a TCP connection has no transmission event, so only totals are compared)
+            nexp = sum(1 for qid, rem in prev_dl if rem <= 0)
+            ndown = sum(downs.values())
+            # a socket-layer failure while re-sending ends the other queries of that connection before their own
+            # timeouts are looked at: only judge passes without one
+            if ndown < nexp and not any(n.endswith("!") for n, _ in evs):
+                bad.append(("timeout-not-counted-as-failure", "%d queries had timed out when timeouts were processed, but servers "
+                            "were marked failed only %d time(s)" % (nexp, ndown)))
+        m = re.search(r"dl=\[([^\]]*)\]", line)
+        prev_dl = []
+        if m and m.group(1):
+            for item in m.group(1).split(","):
+                qid, rem = item.rsplit(":", 1)
+                prev_dl.append((qid, int(rem)))
     return bad
 
 
@@ -256,17 +317,19 @@ def mon_c05(case, out):
     good_marks = {}   # marker -> True for replies that carried a well-formed server cookie to a cookie-bearing UDP request
     good_at = None    # virtual time at which such a reply was last delivered (single-server cookie scenarios only)
     nservers = 1
+    reply_tx = {}     # marker -> transmissions (dict) the replies carrying it were addressed to
     for op, evs, line in _iter(case, out):
         t = op.split()
         kv = _kv(t)
         if t[0] == "chan":
-            txinfo, replies = [], {}
+            txinfo, replies, reply_tx = [], {}, {}
             dns0x20 = bool(int(kv.get("flags", "0")) & 1024)
             now, good_marks, good_at = 0, {}, None
             nservers = len(kv.get("servers", "x").split(","))
             continue
         if t[0] == "adv":
             now += int(kv.get("ms", t[1] if len(t) > 1 and t[1].isdigit() else 0))
+        ntx_before = len(txinfo)
         for name, args in evs:
             if name == "tx":
                 d = _kv(args)
@@ -277,6 +340,10 @@ def mon_c05(case, out):
             k = k if k >= 0 else len(txinfo) + k
             forged = any(x in kv for x in ("idadd", "qtadd", "qcadd")) or kv.get("qname") == "other" \
                 or (kv.get("src") == "other" and 0 <= k < len(txinfo) and not txinfo[k]["_tcp"]) or (kv.get("qname") == "flipcase" and dns0x20 and 0 <= k < len(txinfo) and not txinfo[k]["_tcp"])
+            # remember which transmission the reply answers: when it is delivered, the query must (still or again) be
+            # assigned to that connection
+            if 0 <= k < len(txinfo) and "on" not in kv and kv.get("kind", "noerror") == "noerror" and not forged:
+                reply_tx.setdefault(int(kv.get("mark", k)), []).append(txinfo[k])
             ck = kv.get("cookie", "")
             withck = 0 <= k < len(txinfo) and not txinfo[k]["_tcp"] and txinfo[k].get("ck", "-") != "-"
             if withck and not forged and ck.startswith("new:") and 16 <= len(ck) - 4 <= 64 and (len(ck) - 4) % 2 == 0:
@@ -288,12 +355,25 @@ def mon_c05(case, out):
             if kv.get("kind", "noerror") == "noerror" and int(kv.get("an", "1")) > 0:
                 mark = int(kv.get("mark", k))
                 replies.setdefault(mark, []).append(forged)
+        seen_tx = ntx_before
         for e in events(line):
+            if e.startswith("tx("):
+                seen_tx += 1
             m = re.match(r"cb\((\d+),ok,to=\d+,rc=0,an=\d+,10\.(\d+)\.(\d+)\.\d+/", e)
             if m:
                 mark = int(m.group(2)) * 256 + int(m.group(3))
                 if good_marks.get(mark):
                     good_at = now
+                # assigned connection: every reply carrying this marker was addressed to a transmission that, at the
+                # moment of delivery, is not the query's latest one and used another connection
+                rts = reply_tx.get(mark)
+                if rts:
+                    def superseded(a):
+                        same = [b for b in txinfo[:seen_tx] if b.get("id") == a.get("id") and b.get("q") == a.get("q") and b.get("t") == a.get("t")]
+                        return bool(same) and same[-1].get("fd") != a.get("fd")
+                    if all(superseded(a) for a in rts):
+                        bad.append(("reply-on-unassigned-connection", "callback %s got data from reply marker %d, which arrived on connection %s "
+                                    "while the query was assigned to another: %s" % (m.group(1), mark, rts[0].get("fd"), e[:120])))
                 fl = replies.get(mark)
                 if fl is not None and fl and all(fl):
                     bad.append(("forged-reply-delivered", "callback %s got data from reply marker %d, which was forged: %s"
